@@ -21,11 +21,11 @@ import (
 // C01, C05 (client caches), C13 and C14.
 
 type cliMon struct {
-	spec    MonSpec
-	cookie  client.MonitorCookie
-	done    bool
-	err     error
-	call    *Call
+	spec   MonSpec
+	cookie client.MonitorCookie
+	done   bool
+	err    error
+	call   *Call
 }
 
 type mirrorClient struct {
@@ -46,14 +46,14 @@ type cacheEvent struct {
 }
 
 type s3 struct {
-	e    *Env
-	cfg  *RunCfg
-	srv  *ServerInst
-	w    *RawPeer
-	cw   *mirrorClient // writer client for read-your-writes (may be nil)
-	cls  []*mirrorClient
-	db   string
-	ryw  int
+	e        *Env
+	cfg      *RunCfg
+	srv      *ServerInst
+	w        *RawPeer
+	cw       *mirrorClient // writer client for read-your-writes (may be nil)
+	cls      []*mirrorClient
+	db       string
+	ryw      int
 	bare     *bareCache
 	bareLast DBState
 }
@@ -79,6 +79,7 @@ func cfgS3(prop string, seed uint64, tier string) *RunCfg {
 	}
 	prof := []string{"valid-sw", "mixed-sw", "refs", "samerow", "index"}[r.Intn(5)]
 	c.Knobs["client_writer"] = r.Intn(2)
+	stubFed := (prop == "C01" || prop == "C14") && r.Intn(6) == 0
 	c.Slow = slowClasses(r, ".mon", "handleRequest", "cache:", "/client:") // transactions go through a real client (read-your-writes)
 	for i := 0; i < n; i++ {
 		p := prof
@@ -138,6 +139,9 @@ func cfgS3(prop string, seed uint64, tier string) *RunCfg {
 			}
 			c.Monitors = append(c.Monitors, ms)
 		}
+	}
+	if stubFed {
+		c.Scenario = "S3R" // fed by the stub server (update3; for C14 also refused notifications)
 	}
 	return c
 }
@@ -207,9 +211,9 @@ func (h *handlerRec) rec(kind, table string, old, new model.Model) {
 		scribble(new)
 	}
 }
-func (h *handlerRec) OnAdd(table string, m model.Model)         { h.rec("add", table, nil, m) }
-func (h *handlerRec) OnUpdate(table string, o, n model.Model)   { h.rec("update", table, o, n) }
-func (h *handlerRec) OnDelete(table string, m model.Model)      { h.rec("delete", table, m, nil) }
+func (h *handlerRec) OnAdd(table string, m model.Model)       { h.rec("add", table, nil, m) }
+func (h *handlerRec) OnUpdate(table string, o, n model.Model) { h.rec("update", table, o, n) }
+func (h *handlerRec) OnDelete(table string, m model.Model)    { h.rec("delete", table, m, nil) }
 
 // scribble overwrites every mapped field of a model in place: scalars are
 // changed, slices are written into and appended to, maps get a new key and
